@@ -4,7 +4,7 @@
    the patch lists and the finally layout are gen/C13Consts.v, regenerated from /repo by T1. *)
 From Coq Require Import List String NArith Bool.
 From RC Require Import gen.C13Consts model.PatchStackC13 proofs.PatchStackC13P proofs.AnalyseC13P
-  proofs.ExitC13P proofs.TheoremsC13P proofs.WitnessC13P proofs.ContentC13P.
+  proofs.ExitC13P proofs.TheoremsC13P proofs.WitnessC13P proofs.ContentC13P proofs.ThreadsC13P.
 Import ListNotations.
 Open Scope string_scope.
 
@@ -35,6 +35,17 @@ Print Assumptions C13_listed_are_patched.
 Theorem C13_new_values_fresh : new_values_fresh_b = true.
 Proof. exact new_values_fresh. Qed.
 Print Assumptions C13_new_values_fresh.
+
+(* the read of the setup script sits inside the try whose finally undoes the installation, and
+   between the first thing _parse_setup_py installs (fake modules, begin_patch, the hook) and
+   `with patches:` no call that can raise is left unguarded; so a script that cannot be read
+   (not UTF-8) is, for the process, an empty script that raises *)
+Theorem C13_unreadable_script_is_raise :
+  prologue_guarded_b = true /\
+  forall root hook cy early ops s,
+    analyse root hook cy early (ops, Unreadable) s = analyse root hook cy early ([], Raise) s.
+Proof. exact (conj prologue_guarded unreadable_is_raise). Qed.
+Print Assumptions C13_unreadable_script_is_raise.
 
 (* ---- the property, as far as it holds *)
 
@@ -140,6 +151,23 @@ Theorem C13_mutable_contents_partial :
      content (get (pkey p0) s) s' = content (get (pkey p0) s) s).
 Proof. exact (conj inner_contents_unchanged pyproject_contents_unchanged). Qed.
 Print Assumptions C13_mutable_contents_partial.
+
+(* two PEP 517 analyses on two threads: old_cwd is read while holding LOCK (obligation), and for
+   EVERY schedule (any interleaving, backends that chdir anywhere, a second analysis starting while
+   the first is in its backend) the process is back in its directory whenever no analysis is in the
+   critical section, in particular when both have finished *)
+Theorem C13_pyproject_two_threads_cwd :
+  cwd_saved_inside_lock = true /\
+  forall cwd0 srcA srcB dirsA dirsB sched,
+    let t := two_pyproject cwd0 srcA srcB dirsA dirsB sched in
+    (t_lock t = None -> t_cwd t = cwd0) /\ (t_remA t = [] -> t_remB t = [] -> t_cwd t = cwd0).
+Proof.
+  exact (conj cwd_saved_inside_lock_ok
+           (fun cwd0 srcA srcB dirsA dirsB sched =>
+              conj (two_threads_cwd cwd0 srcA srcB dirsA dirsB sched)
+                   (two_threads_finished cwd0 srcA srcB dirsA dirsB sched))).
+Qed.
+Print Assumptions C13_pyproject_two_threads_cwd.
 
 (* file operations that go through the substituted functions never change the project *)
 Theorem C13_project_files_untouched_partial : forall ops tree,
